@@ -809,6 +809,10 @@ MUTANTS = [
      'edits': [(C_, _TWO_INSERTS,
                 '        self.intervals = tuple(self.intervals[:i]) + (interval,) + tuple(self.intervals[i:])\n'
                 '        self.slopes = tuple(self.slopes[:i]) + (slope,) + tuple(self.slopes[i:])\n')]},
+    {'name': 'insert leaves tuples behind (the columns of zip(*pieces))', 'expect': ('TYPE.container', 'PiecewiseCovEffect'),
+     'edits': [(C_, _TWO_INSERTS,
+                '        pieces = list(zip(self.intervals, self.slopes))\n        pieces.insert(i, (interval, slope))\n'
+                '        self.intervals, self.slopes = list(zip(*pieces))\n')]},
     {'name': 'numpy truth value of a generator expression', 'expect': ('ORDER.ascending', 'PiecewiseCovEffect'),
      'edits': [(C_, '        larger = interval < np.array(self.intervals)\n        if np.any(larger):\n'
                 '            i = np.argmax(larger)\n',
@@ -838,10 +842,7 @@ MUTANTS = [
                 '        self.intervals[:] = [piece[0] for piece in pieces]\n'
                 '        self.slopes[:] = [piece[1] for piece in pieces]\n')]},
 ]
-# PENDING (white-box round 3; need the interpreter changes asked for in /tmp/gaps3/REQ3_C17.md, then move into MUTANTS):
-#   A1 'insert leaves tuples behind (columns of zip(*pieces))', expect ('TYPE.container', 'PiecewiseCovEffect'):
-#      _TWO_INSERTS -> 'pieces = list(zip(self.intervals, self.slopes)); pieces.insert(i, (interval, slope));
-#      self.intervals, self.slopes = list(zip(*pieces))'                       (items of zip are not tuples yet)
+# PENDING (white-box round 3; needs a model of np.interp in the interpreter - /tmp/gaps3/REQ3_C17.md -, then move into MUTANTS):
 #   A4 'evaluation by np.interp over the energies at the breakpoints', expect ('REF.', 'get_UoRT')
 EQUIV = [
     # white-box review, round 2 (behaviour-preserving: must stay silent)
@@ -887,6 +888,10 @@ EQUIV = [
                 '            H = self.slopes[i - 1] * interval + intercepts[i - 1]\n'
                 '            intercepts[i] = H - self.slopes[i] * interval\n'
                 '        self._intercepts = intercepts.tolist()\n')]},
+    {'name': 'insert through zip(*pieces) whose columns are made lists again',
+     'edits': [(C_, _TWO_INSERTS,
+                '        pieces = list(zip(self.intervals, self.slopes))\n        pieces.insert(i, (interval, slope))\n'
+                '        self.intervals, self.slopes = (list(column) for column in zip(*pieces))\n')]},
     {'name': 'default temperature resolved in the body',
      'edits': [(C_, "    def get_UoRT(self, x=0., T=c.T0('K')):", "    def get_UoRT(self, x=0., T=None):"),
                (C_, _LOOK, "        if T is None:\n            T = c.T0('K')\n" + _LOOK)]},
